@@ -112,6 +112,21 @@ def _watchdog(root, stop, limit_kb, killed):
 
 
 def run_harnesses(crate, names, jobs=16, harness_timeout='10m', overall_timeout=3600, extra=()):
+    """returns dict(results=name -> result, ..). If the Kani driver dies before it has started every harness (observed
+    once: exit 101 after a CBMC process was killed for memory), the harnesses without any output are started again,
+    once, within the remaining budget."""
+    out = _run_harnesses_once(crate, names, jobs, harness_timeout, overall_timeout, extra)
+    missing = [n for n in names if out['results'][n]['status'] == 'missing']
+    left = overall_timeout - out['wall_s']
+    if missing and len(missing) < len(names) and out['rc'] not in (0, -9) and left > 60 and not out['compile_error']:
+        out2 = _run_harnesses_once(crate, missing, jobs, harness_timeout, int(left), extra)
+        out['results'].update(out2['results'])
+        out['wall_s'] += out2['wall_s']
+        out['retried'] = missing
+    return out
+
+
+def _run_harnesses_once(crate, names, jobs=16, harness_timeout='10m', overall_timeout=3600, extra=()):
     """returns dict name -> result"""
     if not names:
         return {}
